@@ -20,7 +20,7 @@ Not decided: numeric results of exp / log / root / muldiv / narrow-int.
 import re
 
 from fvlib.core import (CFG, CallGraph, agg_blocks, assignments, bool_switch_targets, call_blocks, calls, callee_matches,
-                        callee_name, describe, guards, guard_region, origins, short)
+                        callee_name, describe, guards, guard_region, match_commuted, origins, short)
 from fvlib.summ import Summaries, ok_sites, path_minmax
 from fvlib import vm
 
@@ -106,7 +106,7 @@ def run(F, rep, tier, allfacts):
     ab = [i for n, i, l in sites if n == nn]
     eb = agg_blocks(nf, r"PanicReason$", "ReservedRegisterNotWritable")
     for g in guards(nf):
-        reg = guard_region(g, r"into\(arg:k\)|^arg:k$|var:k", r"RegId::WRITABLE$")
+        reg = guard_region(g, r"into\(arg:\w+\)|^arg:\w+$|^var:\w+$", r"RegId::WRITABLE$")
         if reg is not None and ab and eb:
             ge = g["t"] if reg == {"eq", "gt"} else (g["f"] if reg == {"lt"} else None)
             lt = g["f"] if ge == g["t"] else g["t"]
@@ -221,8 +221,10 @@ def run(F, rep, tier, allfacts):
         ok = len(cs) == 1 and cs[0][0] == helper
         if ok:
             a = cs[0][1]
-            ok = a[1] == "call:unpack(arg:self).0" and bool(re.match(oprx, a[2])) and bool(re.search(brx, a[3])) and bool(re.search(crx, a[4])) \
-                and (erx is None or bool(re.match(erx, a[5])))
+            operands = (bool(re.search(brx, a[3])) and bool(re.search(crx, a[4]))) or \
+                (op in ("ADD", "ADDI", "MUL", "MULI") and bool(re.search(brx, a[4])) and bool(re.search(crx, a[3])))     # commutative: b+c = c+b
+            ok = a[1] == "call:unpack(arg:self).0" and bool(re.match(oprx, a[2])) and operands \
+                and (erx is None or match_commuted(erx, a[5]) is not None)
         rep.check(ok, "TAB-alu-ops", "handler:" + op, "%s:%s" % (f["file"], f["line"]),
                   "%s must call %s(rA, %s, rB, %s) %s; found %s" % (op, helper, oprx, "rC/imm", ("with error predicate " + erx) if erx else "", cs))
     for op, rx in sorted(SET_OPS.items()):
@@ -251,7 +253,7 @@ def run(F, rep, tier, allfacts):
                     val = "%s(%s)" % (r[1][1], describe(f, r[1][2], depth=18))
                 if isinstance(r, tuple) and r[0] == "rvalue" and r[1][0] == "cast":
                     val = describe(f, r[1][2], depth=18)
-            ok = bool(re.match(rx, val))
+            ok = match_commuted(rx, val) is not None
         rep.check(ok, "TAB-alu-ops", "handler:" + op, "%s:%s" % (f["file"], f["line"]), "%s must alu_set(rA, %s); found %s" % (op, rx, val))
     for op, meth in SHIFT_REG.items():
         n, f = H[op]
